@@ -76,7 +76,11 @@ type Platform struct {
 	Driver *driver.Driver
 }
 
-func newSimulation() *simulation.Simulation {
+func newSimulation(parallel ...bool) *simulation.Simulation {
+	if len(parallel) > 0 && parallel[0] {
+		// runner.initSimulation with -parallel: the only thing the flag changes is the engine
+		return simulation.MakeBuilder().WithoutMonitoring().WithParallelEngine().Build()
+	}
 	// the recorder file akita_sim_<id>.sqlite3 is created in cwd (the worker
 	// has chdir'ed into a scratch directory); monitoring (RTM web server) off,
 	// exactly what `-disable-rtm` does in runner.initSimulation.
@@ -91,8 +95,8 @@ func parseArch(a string) arch.Type {
 }
 
 // BuildEmu mirrors runner.buildEmuPlatform.
-func BuildEmu(numGPUs int, a arch.Type) *Platform {
-	s := newSimulation()
+func BuildEmu(numGPUs int, a arch.Type, parallel ...bool) *Platform {
+	s := newSimulation(parallel...)
 	emusystem.MakeBuilder().
 		WithSimulation(s).
 		WithNumGPUs(numGPUs).
@@ -103,8 +107,8 @@ func BuildEmu(numGPUs int, a arch.Type) *Platform {
 
 // BuildTiming mirrors runner.buildTimingPlatform (default knobs) or builds the
 // same wiring with the GPU builder's exported knobs.
-func BuildTiming(numGPUs int, gpuType string, k Knobs) *Platform {
-	s := newSimulation()
+func BuildTiming(numGPUs int, gpuType string, k Knobs, parallel ...bool) *Platform {
+	s := newSimulation(parallel...)
 	sampling.InitSampledEngine()
 	if k.IsDefault() {
 		b := timingconfig.MakeBuilder().
